@@ -18,6 +18,10 @@ cp /verif/known_findings.txt $O/
 cd $R || exit 2
 if ! git apply --check "$P" 2>/dev/null; then echo "patch does not apply"; exit 2; fi
 git apply "$P"
+# a change that alters the signature of something a cfg-guarded hook wrapper calls compiles with the
+# guard off (as its author checked) but not with it on: an adapter for the wrapper may sit next to it
+A="$(dirname "$P")/hooks_adapter.diff"
+[ -f "$A" ] && { git apply "$A" && echo "(hook wrapper adapter applied)"; }
 git diff --stat | tail -1
 cd $X
 if ! CARGO_NET_OFFLINE=true cargo build --release --offline >build.log 2>&1; then echo "BUILD FAILED"; grep -E "^error" -A8 build.log | head -30; git -C $R checkout -- .; exit 2; fi
